@@ -358,6 +358,9 @@ Definition as_int (v : value) : outcome Z := match v with VInt z => Ok z | _ => 
 Definition as_bool (v : value) : outcome bool := match v with VBool b => Ok b | _ => Err E_TYPE end.
 Definition as_str (v : value) : outcome bytes := match v with VStr s => Ok s | _ => Err E_TYPE end.
 
+(* index into a tuple: a literal far beyond the length must not become a unary number of that size when the model runs *)
+Definition zidx {A} (l : list A) (i : Z) : nat := Z.to_nat (Z.min i (Z.of_nat (List.length l))).
+
 (* Vec<Value>::get with negative indices counting from the end *)
 Definition vec_get (l : list expr) (i : Z) : outcome expr :=
   let n := Z.of_nat (List.length l) in
@@ -417,7 +420,7 @@ Fixpoint type_of (fuel : nat) (en : env) (e : expr) {struct fuel} : outcome ty :
             match ix with
             | EInt i => match tt with
                         | TyTup ts => if (0 <=? i)%Z then
-                                        match nth_error ts (Z.to_nat i) with Some t => Ok t | None => Err E_TYPE end
+                                        match nth_error ts (zidx ts i) with Some t => Ok t | None => Err E_TYPE end
                                       else Err E_TYPE
                         | _ => Err E_TYPE
                         end
@@ -522,7 +525,7 @@ with value_of (fuel : nat) (en : env) (e : expr) {struct fuel} : outcome value :
             match ix with
             | EInt i => match tv with
                         | VTup l => if (0 <=? i)%Z then
-                                      match nth_error l (Z.to_nat i) with Some el => value_of f en el | None => Err E_TYPE end
+                                      match nth_error l (zidx l i) with Some el => value_of f en el | None => Err E_TYPE end
                                     else Err E_TYPE
                         | _ => Err E_TYPE
                         end
